@@ -236,7 +236,7 @@ def x_mutant(draw):
 @st.composite
 def x_extreme(draw):
     k = draw(st.sampled_from(["blocks", "parens", "literals", "locals", "args", "functions", "globals", "switch", "strswitch", "longline", "macro_expand",
-                              "macro_args", "chain", "ifnest", "biglines", "biglines", "include_big", "include_big", "strings", "bigarray", "elseif", "ternary", "bigstring", "classes", "nested_literal_locals"]))
+                              "macro_args", "chain", "ifnest", "biglines", "biglines", "include_big", "include_big", "strings", "bigarray", "elseif", "ternary", "bigstring", "classes", "nested_literal_locals", "globalinit", "globalinit"]))
     n = draw(st.sampled_from([1, 5, 9, 10, 11, 24, 25, 26, 30, 50, 64, 100, 250, 255, 256, 257, 500, 1000]))
     if k == "include_big":
         # text in front of and behind an #include of a file larger than a read chunk: the lexer has to move the includer's unread text
@@ -311,6 +311,26 @@ def x_extreme(draw):
         return "#if 1\n" * n + "int f() { return 1; }\n" + "#endif\n" * close
     if k == "strings":
         return "string *f() { return ({ " + ", ".join('"s%d"' % i for i in range(n)) + " }); }\n"
+    if k == "globalinit":
+        # initialisers of globals are compiled into a block of their own, which is appended to the program in one piece: a table of
+        # several thousand constants makes that one piece several times larger than everything compiled before it
+        m = draw(st.sampled_from([100, 850, 1000, 2000, 3000, 6000]))
+        sty = draw(st.sampled_from(["ints", "ints", "strings", "mapping", "nested"]))
+        if sty == "ints":
+            items = ["%d" % (100000 + i) for i in range(m)]
+            o, c = "({", "})"
+        elif sty == "strings":
+            items = ['"gs%d"' % (i % 200) for i in range(m)]
+            o, c = "({", "})"
+        elif sty == "mapping":
+            items = ["%d:%d" % (i, 70000 + i) for i in range(min(m, 3000))]
+            o, c = "([", "])"
+        else:
+            items = ["({ %d, %d })" % (i, 90000 + i) for i in range(m // 2)]
+            o, c = "({", "})"
+        rows = "".join("  " + ", ".join(items[j:j + 10]) + ",\n" for j in range(0, len(items), 10))
+        head = "int small() { return 1; }\n" if draw(st.booleans()) else ""
+        return head + "mixed tab = " + o + "\n" + rows + c + ";\nmixed f() { return sizeof(tab); }\n"
     if k == "bigarray":
         return "mixed f() { return ({ " + ", ".join(str(i) for i in range(n)) + " }); }\nmapping g() { return ([ " + ", ".join("%d:%d" % (i, i) for i in range(min(n, 300))) + " ]); }\n"
     if k == "elseif":
@@ -449,6 +469,11 @@ def evaluate_case(ctx, w, case):
         elif r.get("st") in ("err", "null"):
             feats.add("x-rejected")
             if not errs and not r.get("nerr") and not (r.get("msg") or "").strip():
+                if "in program /t/c02x%d.c" % i in res.stderr:
+                    # a program was produced: the load failed in the program's own initialisers (#global_init#/create) with a run-time
+                    # error whose trace names the program, and the master's error handler could not run either (evaluator stack full)
+                    feats.add("x-compiled-init-failed")
+                    continue
                 return ("no-program-and-no-error", "X%d produced neither a program nor an error message: %r\n%s" % (i, r, info)), None
         else:
             return ("unexpected-load-outcome", "X%d: %r\n%s" % (i, r, info)), None
